@@ -1,4 +1,86 @@
-(** C12 - placeholder while the proofs are being written (replaced in this session). *)
-From Coq Require Import List ZArith.
-From HK Require Import Model.Queue Model.QueueMon.
-Theorem C12_placeholder : True. Proof. exact I. Qed.
+(** C12 - admission limits: depth and drop policy (this file, queue model); size limits and the
+    rate limiter are in Properties/C12rl.v.
+    Only theorem statements; proofs are [exact] of lemmas from Proofs/. *)
+From Coq Require Import List ZArith NArith Bool.
+From HK Require Import Model.Queue Model.QueueMon Proofs.QueueBase Proofs.QueueInv Proofs.QueueInvStep
+  Proofs.QueueStep Proofs.QueueAdmit.
+Import ListNotations.
+Open Scope Z_scope.
+
+(** every refusal (full, duplicate id, memory pressure) leaves the queue exactly as it was - what the
+    call's own retention prune removed aside: nothing is evicted, nothing stored, nothing touched *)
+Theorem C12_refusal_frame : forall fl c now single es o s s' e,
+  step_enqueue fl c now single es o s = (s', RErr e) -> s' = prune c now (o_gone o) s.
+Proof. exact enqueue_refusal_frame. Qed.
+
+(** a successful enqueue (single or batch, either policy, either backend) leaves at most max_depth
+    active messages, provided the queue was not already lifted above max_depth (the stated exclusion) *)
+Theorem C12_admitted_within_depth : forall fl c now single es o s s' r,
+  (single = true -> length es = 1%nat) ->
+  Inv s -> step_enqueue fl c now single es o s = (s', r) -> res_ok r = true -> es <> [] ->
+  0 < c_max_depth c -> active (msgs (prune c now (o_gone o) s)) <= c_max_depth c ->
+  active (msgs s') <= c_max_depth c.
+Proof. exact enqueue_within_depth. Qed.
+
+(** history level: as long as no operator requeue/resume lifts it, queued+leased <= max_depth always *)
+Theorem C12_active_bounded_along_history : forall fl c xs,
+  0 < c_max_depth c ->
+  Forall (fun xo : op * oracle => lifts (fst xo) = false) xs ->
+  active (msgs (snd (run fl c init xs))) <= c_max_depth c.
+Proof.
+  intros fl c xs Hmax HF. apply active_bounded_along_history; auto; [exact inv_init | unfold active, count_st; simpl; Lia.lia].
+Qed.
+
+(** evictions happen only for a successful enqueue under drop_oldest, only of queued - never leased -
+    messages (C02's [rm_evict]); SQLite evicts exactly as many as needed, one per message stored beyond the room *)
+Theorem C12_sql_evicts_exactly : forall c fuel need hint l l2,
+  NoDup (ids l) -> sql_make_room c fuel need hint l = Some l2 ->
+  exists vs, l2 = apply_pm (pm_remove_ids vs) l /\ queued_ids l vs /\ NoDup vs
+             /\ Z.of_nat (length vs) = Z.max 0 (need - c_max_depth c).
+Proof. exact sql_make_room_exact. Qed.
+
+Theorem C12_mem_plan_sound : forall c fuel extra ord l a ad vs,
+  mem_plan_loop c fuel extra ord l a ad [] = Some vs ->
+  NoDup vs /\ queued_ids l vs /\
+  exists n, Z.of_nat (length vs) = n /\ 0 <= n /\ mem_full c extra (a - n) (ad - n) = false.
+Proof.
+  intros c fuel extra ord l a ad vs H.
+  destruct (mem_plan_loop_exact c fuel extra ord l a ad [] vs H (NoDup_nil N)) as [A [B [n [Ln [Hn Hf]]]]]; [intros v []|].
+  split; [exact A|]. split; [exact B|]. exists n. simpl in Ln. repeat split; assumption.
+Qed.
+
+(** the victim is an oldest queued message *)
+Theorem C12_sql_victim_is_oldest_queued : forall hint l v,
+  sql_victim hint l = Some v ->
+  exists m, In m l /\ m_id m = v /\ queuedb m = true /\ forall q, In q l -> queuedb q = true -> m_recv m <= m_recv q.
+Proof. exact sql_victim_oldest. Qed.
+
+Theorem C12_mem_victim_is_oldest_queued : forall ord l vs m,
+  mem_oldest ord l vs None = Some m ->
+  forall i q, In i ord -> find_id i l = Some q -> queuedb q = true -> ~ In i vs -> m_recv m <= m_recv q.
+Proof. intros ord l vs m H. exact (proj2 (mem_oldest_min ord l vs None m H)). Qed.
+
+(** nothing but an enqueue or an operator requeue/resume raises the active count *)
+Theorem C12_only_enqueue_raises_active : forall fl c s x o s' r,
+  Inv s -> raises_active x = false -> step fl c s x o = (s', r) -> active (msgs s') <= active (msgs s).
+Proof. exact step_active_not_raised. Qed.
+
+Example C12_witness :
+  let e i := mkEnq (Some i) 1%N 1%N None None 5%N 0%N 0%N in
+  let o0 := mkOracle [] [] [] [] in
+  map (fun ev => (ev_res ev, map m_id (ev_after ev)))
+      (model_trace Sql (mkCfg 2 true 0 0 0 0 0 0)
+         [(Enqueue 100 (e 1%N), o0); (Enqueue 101 (e 2%N), o0);
+          (Enqueue 102 (e 2%N), mkOracle [] [1%N] [] []);      (* full + duplicate id: refused, nothing evicted *)
+          (Enqueue 103 (e 3%N), mkOracle [] [1%N] [] [])])     (* full: the oldest queued is evicted, 3 stored *)
+  = [(RUnit, [1%N]); (RUnit, [1%N; 2%N]); (RErr EExists, [1%N; 2%N]); (RUnit, [2%N; 3%N])].
+Proof. vm_compute. reflexivity. Qed.
+
+Print Assumptions C12_refusal_frame.
+Print Assumptions C12_admitted_within_depth.
+Print Assumptions C12_active_bounded_along_history.
+Print Assumptions C12_sql_evicts_exactly.
+Print Assumptions C12_mem_plan_sound.
+Print Assumptions C12_sql_victim_is_oldest_queued.
+Print Assumptions C12_mem_victim_is_oldest_queued.
+Print Assumptions C12_only_enqueue_raises_active.
